@@ -22,8 +22,9 @@ type Flow struct {
 	corr map[string][]types.Object
 	sw   map[*ast.CaseClause]*ast.SwitchStmt
 
-	preds    map[*cfg.Block][]*cfg.Block
-	nbStable map[*types.Var]int // named booleans: 0 unknown, 1 expandable (or being decided), 2 not expandable
+	preds     map[*cfg.Block][]*cfg.Block
+	rangeVars map[token.Pos]*ast.RangeStmt
+	nbStable  map[*types.Var]int // named booleans: 0 unknown, 1 expandable (or being decided), 2 not expandable
 }
 
 // switchOf: the expression switch a case clause belongs to (nil for type switches / select).
@@ -1414,4 +1415,28 @@ func (f *Flow) seedFacts(pt Pt, corr map[string][]types.Object) map[string]bool 
 		return nil
 	}
 	return facts
+}
+
+// RangeVarOf: go/cfg (v0.29) emits the key and value identifiers of a range statement as bare identifier nodes in
+// the block in front of the loop head. For such a node the range statement is returned (nil otherwise).
+func (f *Flow) RangeVarOf(n ast.Node) *ast.RangeStmt {
+	id, ok := n.(*ast.Ident)
+	if !ok || f.Body == nil {
+		return nil
+	}
+	if f.rangeVars == nil {
+		f.rangeVars = map[token.Pos]*ast.RangeStmt{}
+		ast.Inspect(f.Body, func(x ast.Node) bool {
+			if rs, ok := x.(*ast.RangeStmt); ok {
+				if rs.Key != nil {
+					f.rangeVars[rs.Key.Pos()] = rs
+				}
+				if rs.Value != nil {
+					f.rangeVars[rs.Value.Pos()] = rs
+				}
+			}
+			return true
+		})
+	}
+	return f.rangeVars[id.Pos()]
 }
